@@ -201,6 +201,7 @@ class C01(Check):
             ("(1).real", None, True), ("'a'[0]", "math", True), ("x" * 10001, None, True),
             ("len('True') == 4", None, True), ("(2 or 3) - 1", "math", True), ("round(2.567, ndigits=2)", None, True),
             ("1 << 3", "math", True), ("[1, 2", "transform", True), ("{'a': (1, 2)}", None, True),
+            ("factorial(2000)", None, True), ("2**20000", "math", True), ("10**5000 + 1", None, True),
         ]]
         return base + super().corpus_cases()
 
@@ -219,6 +220,13 @@ class C01(Check):
             head = [0, -1, steps]
         obs = [head] + rec.trace_obs()
         trace = {"rec": rec, "res": res, "raised": raised, "wall": wall}
+        # the legacy string API and the agent entry point (monitor only, on a fresh engine)
+        if case["pathway"] in (None, "math") and len(expr) < 2000 and not case["tools"]:
+            from operon_ai.organelles.mitochondria import Mitochondria
+            try:
+                Mitochondria(silent=True).digest_glucose(expr)
+            except BaseException as e:  # noqa
+                trace["digest_raised"] = e
         return obs, trace
 
     # -- model input -----------------------------------------------------------
@@ -256,6 +264,9 @@ class C01(Check):
             return Violation("C01/harness", str(trace))
         if trace["raised"] is not None:
             return Violation("C01/raises", f"metabolize raised {type(trace['raised']).__name__}: {trace['raised']}")
+        if trace.get("digest_raised") is not None:
+            e = trace["digest_raised"]
+            return Violation("C01/raises", f"digest_glucose raised {type(e).__name__}: {str(e)[:80]}")
         rec = trace["rec"]
         for cls, outcome, _nd in rec.nodes:
             if cls not in MC.SPEC_CLASSES and outcome and outcome[0] == "ret":
